@@ -1,0 +1,320 @@
+// Verification hooks for `TransportService` (cfg(feature = "verif") only, adds code only):
+// a wrapper that owns a real `TransportService` together with the sender of its event channel,
+// real `ConnectionHandle`s whose command receivers stay with the caller, injection of
+// `InnerTransportEvent`s, and read accessors for the per-peer connection contexts and the
+// keep-alive tracker.
+
+use crate::{
+    addresses::PublicAddresses,
+    codec::ProtocolCodec,
+    error::SubstreamError,
+    protocol::{
+        connection::{ConnectionHandle, Permit},
+        protocol_set::{InnerTransportEvent, ProtocolCommand},
+        transport_service::{SubstreamKeepAlive, TransportService},
+        Direction, TransportEvent,
+    },
+    substream::Substream,
+    transport::{manager::TransportManagerHandle, Endpoint},
+    types::{protocol::ProtocolName, ConnectionId, SubstreamId},
+    PeerId,
+};
+
+use futures::Stream;
+use multiaddr::Multiaddr;
+use tokio::sync::mpsc::{channel, error::TryRecvError, Receiver, Sender, WeakSender};
+use tokio_util::compat::{FuturesAsyncReadCompatExt, TokioAsyncReadCompatExt};
+
+use std::{
+    collections::{HashMap, HashSet},
+    pin::Pin,
+    sync::{
+        atomic::{AtomicUsize, Ordering},
+        Arc,
+    },
+    task::{Context, Poll},
+    time::Duration,
+};
+
+pub use crate::protocol::connection::Permit as VerifPermit;
+
+/// A strong sender of a connection's command channel held by "someone else" (another protocol).
+pub struct VerifStrong(#[allow(dead_code)] Sender<ProtocolCommand>);
+
+/// The connection side of one command channel: what `ProtocolSet` and the connection task own.
+pub struct VerifConn {
+    pub id: usize,
+    rx: Receiver<ProtocolCommand>,
+    weak: WeakSender<ProtocolCommand>,
+}
+
+/// `OpenSubstream` command as seen by the connection.
+pub struct VerifOpen {
+    pub substream_id: usize,
+    pub connection_id: usize,
+    pub keep_alive: bool,
+    pub permit: Permit,
+}
+
+impl VerifConn {
+    /// All commands currently queued (`None` entries are `ForceClose`).
+    pub fn drain(&mut self) -> Vec<Option<VerifOpen>> {
+        let mut out = Vec::new();
+        loop {
+            match self.rx.try_recv() {
+                Ok(ProtocolCommand::OpenSubstream {
+                    substream_id,
+                    connection_id,
+                    permit,
+                    keep_alive,
+                    ..
+                }) => out.push(Some(VerifOpen {
+                    substream_id: substream_id.verif_as_usize(),
+                    connection_id: connection_id.verif_as_usize(),
+                    keep_alive: keep_alive == SubstreamKeepAlive::Yes,
+                    permit,
+                })),
+                Ok(ProtocolCommand::ForceClose) => out.push(None),
+                Err(TryRecvError::Empty) | Err(TryRecvError::Disconnected) => return out,
+            }
+        }
+    }
+
+    /// `ProtocolSet::try_get_permit()` of an inactive (downgraded) handle.
+    pub fn try_get_permit(&self) -> Option<Permit> {
+        self.weak.upgrade().map(Permit::new)
+    }
+
+    /// Another strong sender, if the channel still has one.
+    pub fn try_strong(&self) -> Option<VerifStrong> {
+        self.weak.upgrade().map(VerifStrong)
+    }
+
+    /// Whether at least one strong sender exists (the connection task keeps running).
+    pub fn alive(&self) -> bool {
+        self.weak.upgrade().is_some()
+    }
+}
+
+/// `TransportEvent`, flattened.
+pub enum VerifServiceEvent {
+    ConnectionEstablished(PeerId),
+    ConnectionClosed(PeerId),
+    SubstreamOpened(PeerId, Option<usize>, Substream),
+    SubstreamOpenFailure(usize),
+    DialFailure(PeerId),
+}
+
+pub struct VerifService {
+    service: TransportService,
+    tx: Sender<InnerTransportEvent>,
+    counter: Arc<AtomicUsize>,
+    protocol: ProtocolName,
+    fallback: ProtocolName,
+    keep_alive: SubstreamKeepAlive,
+    _cmd_rx: Receiver<crate::transport::manager::handle::InnerTransportManagerCommand>,
+}
+
+impl VerifService {
+    pub fn new(keep_alive_timeout: Duration, keep_alive: bool, first_substream_id: usize) -> Self {
+        let (cmd_tx, _cmd_rx) = channel(64);
+        let local = PeerId::random();
+        let handle = TransportManagerHandle::new(
+            local,
+            Arc::new(parking_lot::RwLock::new(HashMap::new())),
+            cmd_tx,
+            HashSet::new(),
+            Default::default(),
+            PublicAddresses::new(local),
+        );
+        let counter = Arc::new(AtomicUsize::new(first_substream_id));
+        let protocol = ProtocolName::from("/verif/1");
+        let fallback = ProtocolName::from("/verif/0");
+        let keep_alive = if keep_alive {
+            SubstreamKeepAlive::Yes
+        } else {
+            SubstreamKeepAlive::No
+        };
+        let (service, tx) = TransportService::new(
+            local,
+            protocol.clone(),
+            vec![fallback.clone()],
+            counter.clone(),
+            handle,
+            keep_alive_timeout,
+            keep_alive,
+        );
+        VerifService {
+            service,
+            tx,
+            counter,
+            protocol,
+            fallback,
+            keep_alive,
+            _cmd_rx,
+        }
+    }
+
+    /// Other services draw `n` ids from the shared counter.
+    pub fn bump_counter(&self, n: usize) {
+        self.counter.fetch_add(n, Ordering::Relaxed);
+    }
+
+    pub fn next_substream_id(&self) -> usize {
+        self.counter.load(Ordering::Relaxed)
+    }
+
+    /// Queue `ConnectionEstablished` with a fresh active handle; the caller keeps the receiver.
+    pub fn inject_established(&self, peer: PeerId, connection_id: usize, listener: bool) -> VerifConn {
+        let (tx, rx) = channel(64);
+        let weak = tx.downgrade();
+        let id = ConnectionId::from(connection_id);
+        let endpoint = if listener {
+            Endpoint::listener(Multiaddr::empty(), id)
+        } else {
+            Endpoint::dialer(Multiaddr::empty(), id)
+        };
+        let _ = self.tx.try_send(InnerTransportEvent::ConnectionEstablished {
+            peer,
+            connection: id,
+            endpoint,
+            sender: ConnectionHandle::new(id, tx),
+        });
+        VerifConn {
+            id: connection_id,
+            rx,
+            weak,
+        }
+    }
+
+    pub fn inject_closed(&self, peer: PeerId, connection_id: usize) {
+        let _ = self.tx.try_send(InnerTransportEvent::ConnectionClosed {
+            peer,
+            connection: ConnectionId::from(connection_id),
+        });
+    }
+
+    /// Queue `SubstreamOpened` the way `tcp/connection.rs` builds it: a real TCP substream object
+    /// (over a dead yamux stream) holding the lifetime permit iff the protocol is keep-alive.
+    pub fn inject_substream_opened(
+        &self,
+        peer: PeerId,
+        connection_id: usize,
+        outbound: Option<usize>,
+        main_name: bool,
+        opening_permit: Permit,
+    ) {
+        let lifetime_permit = self.keep_alive.then(|| opening_permit.clone());
+        let substream_id = SubstreamId::from(outbound.unwrap_or(0));
+        let substream = Substream::new_tcp(
+            peer,
+            substream_id,
+            crate::transport::tcp::Substream::new(
+                dead_yamux_stream(),
+                crate::bandwidth::BandwidthSink::new(),
+                lifetime_permit,
+            ),
+            ProtocolCodec::Unspecified,
+        );
+        let _ = self.tx.try_send(InnerTransportEvent::SubstreamOpened {
+            peer,
+            protocol: if main_name {
+                self.protocol.clone()
+            } else {
+                self.fallback.clone()
+            },
+            fallback: (!main_name).then(|| self.fallback.clone()),
+            direction: match outbound {
+                Some(id) => Direction::Outbound(SubstreamId::from(id)),
+                None => Direction::Inbound,
+            },
+            connection_id: ConnectionId::from(connection_id),
+            substream,
+            opening_permit,
+        });
+    }
+
+    pub fn inject_open_failure(&self, substream_id: usize) {
+        let _ = self.tx.try_send(InnerTransportEvent::SubstreamOpenFailure {
+            substream: SubstreamId::from(substream_id),
+            error: SubstreamError::ConnectionClosed,
+        });
+    }
+
+    pub fn inject_dial_failure(&self, peer: PeerId) {
+        let _ = self.tx.try_send(InnerTransportEvent::DialFailure {
+            peer,
+            addresses: Vec::new(),
+        });
+    }
+
+    /// `TransportService::open_substream`: Ok(id) or 1 = PeerDoesNotExist, 2 = ConnectionClosed,
+    /// 3 = ChannelClogged, 4 = anything else.
+    pub fn open_substream(&mut self, peer: PeerId) -> Result<usize, u8> {
+        match self.service.open_substream(peer) {
+            Ok(id) => Ok(id.verif_as_usize()),
+            Err(SubstreamError::PeerDoesNotExist(_)) => Err(1),
+            Err(SubstreamError::ConnectionClosed) => Err(2),
+            Err(SubstreamError::ChannelClogged) => Err(3),
+            Err(_) => Err(4),
+        }
+    }
+
+    /// One `poll_next` of the service stream.
+    pub fn poll_event(&mut self, cx: &mut Context<'_>) -> Poll<Option<VerifServiceEvent>> {
+        match Pin::new(&mut self.service).poll_next(cx) {
+            Poll::Pending => Poll::Pending,
+            Poll::Ready(None) => Poll::Ready(None),
+            Poll::Ready(Some(event)) => Poll::Ready(Some(match event {
+                TransportEvent::ConnectionEstablished { peer, .. } =>
+                    VerifServiceEvent::ConnectionEstablished(peer),
+                TransportEvent::ConnectionClosed { peer } => VerifServiceEvent::ConnectionClosed(peer),
+                TransportEvent::DialFailure { peer, .. } => VerifServiceEvent::DialFailure(peer),
+                TransportEvent::SubstreamOpened {
+                    peer,
+                    direction,
+                    substream,
+                    ..
+                } => VerifServiceEvent::SubstreamOpened(
+                    peer,
+                    match direction {
+                        Direction::Inbound => None,
+                        Direction::Outbound(id) => Some(id.verif_as_usize()),
+                    },
+                    substream,
+                ),
+                TransportEvent::SubstreamOpenFailure { substream, .. } =>
+                    VerifServiceEvent::SubstreamOpenFailure(substream.verif_as_usize()),
+            })),
+        }
+    }
+
+    /// Per peer: primary (id, active) and secondary (id, active).
+    #[allow(clippy::type_complexity)]
+    pub fn contexts(&self) -> Vec<(PeerId, (usize, bool), Option<(usize, bool)>)> {
+        self.service.verif_contexts()
+    }
+
+    /// Keys of `KeepAliveTracker::last_activity`.
+    pub fn tracked(&self) -> Vec<(PeerId, usize)> {
+        self.service.verif_tracked()
+    }
+
+    /// Number of armed keep-alive sleeps.
+    pub fn armed_timers(&self) -> usize {
+        self.service.verif_armed_timers()
+    }
+}
+
+/// A yamux stream whose connection is gone: good enough to build a `tcp::Substream` value.
+fn dead_yamux_stream() -> tokio_util::compat::Compat<crate::yamux::Stream> {
+    let (a, _b) = tokio::io::duplex(64);
+    let mut connection =
+        crate::yamux::Connection::new(a.compat(), crate::yamux::Config::default(), crate::yamux::Mode::Client);
+    let waker = futures::task::noop_waker();
+    let mut cx = Context::from_waker(&waker);
+    match connection.poll_new_outbound(&mut cx) {
+        Poll::Ready(Ok(stream)) => FuturesAsyncReadCompatExt::compat(stream),
+        _ => panic!("verif: yamux did not hand out a stream"),
+    }
+}
